@@ -531,6 +531,10 @@ func (u *Upstream) withAckTimeoutCh(ctx context.Context, inCh <-chan *message.Up
 		defer cancel()
 		select {
 		case <-timeoutCtx.Done():
+			if ctx.Err() != nil {
+				// 切断によるキャンセルであり、Ackのタイムアウトではありません（未Ackのチャンクは再送のため保持します）。
+				return
+			}
 			select {
 			case <-ctx.Done():
 			case <-u.ctx.Done():
